@@ -31,7 +31,7 @@ ASSUMPTIONS = ["mtime is advanced by whole seconds through os.utime (logical clo
                "CRC32 collisions between different generated sources are not sampled"]
 REQUIRED_MONITORS = ["evaluates_current_sources", "source_to_library_injective", "cache_listing_is_image"]
 REQUIRED_BUCKETS = {"quick": ["op:edit_py_const", "op:edit_py_default", "op:edit_inc", "op:edit_template", "op:dtype",
-                              "op:revert", "eval:same_process", "eval:fresh_process", "revert_then_same_process",
+                              "op:revert", "op:edit_source_list", "loader:core", "loader:sasview", "eval:same_process", "eval:fresh_process", "revert_then_same_process",
                               "default_only_edit_then_same_process", "clock:past", "clock:future", "clock:near-now", "clock:subsecond"]}
 REQUIRED_BUCKETS["thorough"] = REQUIRED_BUCKETS["quick"]
 HERE = os.path.dirname(os.path.abspath(__file__))
@@ -43,12 +43,12 @@ def gen_cases(tier, seed):
     return [{"id": "hist/%04d" % h, "h": h, "seed": seed, "group": "h%d" % h, "cost": 1.0} for h in range(n)]
 
 
-def py_text(K, D):
+def py_text(K, D, S=1):
     return ('r"""cache probe"""\nfrom numpy import inf\nname = "rtm_cache_probe"\ntitle = "probe"\ndescription = "probe"\n'
             'category = "shape:sphere"\nparameters = [["p_default", "", %d, [-inf, inf], "", "default carries a version"]]\n'
-            'source = ["m_inc.c"]\nIq = """\n    if (q < 0.15) return %d.0;\n    if (q < 0.25) return inc_version();\n'
+            'source = ["%s"]\nIq = """\n    if (q < 0.15) return %d.0;\n    if (q < 0.25) return inc_version();\n'
             '    if (q < 0.35) return RTM_TEMPLATE_VERSION;\n    if (q < 0.45) return FLOAT_SIZE;\n    return p_default;\n"""\n'
-            % (D, K))
+            % (D, "m_inc.c" if S == 1 else "m_inc2.c", K))
 
 
 def inc_text(V):
@@ -65,6 +65,7 @@ class World:
         os.makedirs(self.plug)
         self.cache = os.path.join(root, "cache")
         self.files = {"py": os.path.join(self.plug, "m.py"), "inc": os.path.join(self.plug, "m_inc.c"),
+                      "inc2": os.path.join(self.plug, "m_inc2.c"),
                       "tpl": os.path.join(self.pkg, "sasmodels", "kernel_header.c")}
         self.tpl_base = open(self.files["tpl"]).read()
         # one logical clock for all files: wall-clock time is global, so a later edit of any file carries
@@ -80,16 +81,18 @@ class World:
         # histories; what is observed is sasmodels' reload decision only.
         self.tick = 0.3 if epoch == "subsecond" else 2
         self.epoch = epoch
-        self.state = {"K": 1, "D": 1, "V": 1, "T": 1}
-        self.history = {"py": [], "inc": [], "tpl": []}
+        # S: which of the two include files the definition lists; V2: version of the second one (offset 1000)
+        self.state = {"K": 1, "D": 1, "V": 1, "T": 1, "S": 1, "V2": 1001}
+        self.history = {"py": [], "inc": [], "inc2": [], "tpl": []}
         self.write("py")
         self.write("inc")
+        self.write("inc2")
         self.write("tpl")
         self.server = None
 
     def text(self, which):
         s = self.state
-        return {"py": py_text(s["K"], s["D"]), "inc": inc_text(s["V"]),
+        return {"py": py_text(s["K"], s["D"], s["S"]), "inc": inc_text(s["V"]), "inc2": inc_text(s["V2"]),
                 "tpl": self.tpl_base + "\n#define RTM_TEMPLATE_VERSION %d\n" % s["T"]}[which]
 
     def write(self, which, snapshot=None):
@@ -99,7 +102,7 @@ class World:
             f.write(self.text(which))
         self.now += self.tick
         os.utime(self.files[which], (self.now, self.now))
-        keys = {"py": ("K", "D"), "inc": ("V",), "tpl": ("T",)}[which]
+        keys = {"py": ("K", "D", "S"), "inc": ("V",), "inc2": ("V2",), "tpl": ("T",)}[which]
         self.history[which].append({k: self.state[k] for k in keys})
 
     def env(self):
@@ -116,8 +119,8 @@ class World:
                                        stdin=subprocess.PIPE, stdout=subprocess.PIPE, stderr=subprocess.PIPE, text=True,
                                        cwd=self.root)
 
-    def ask(self, proc, dtype):
-        proc.stdin.write(json.dumps({"op": "eval", "dtype": dtype}) + "\n")
+    def ask(self, proc, dtype, via="core"):
+        proc.stdin.write(json.dumps({"op": "eval", "dtype": dtype, "via": via}) + "\n")
         proc.stdin.flush()
         while True:
             line = proc.stdout.readline()
@@ -126,15 +129,15 @@ class World:
             if line.startswith("RTM17 "):
                 return json.loads(line[6:])
 
-    def eval_same(self, dtype):
+    def eval_same(self, dtype, via="core"):
         if self.server is None or self.server.poll() is not None:
             self.start_server()
-        return self.ask(self.server, dtype)
+        return self.ask(self.server, dtype, via)
 
-    def eval_fresh(self, dtype):
+    def eval_fresh(self, dtype, via="core"):
         p = subprocess.Popen([core.PY, os.path.join(HERE, "_c17_proc.py"), self.files["py"]], env=self.env(),
                              stdin=subprocess.PIPE, stdout=subprocess.PIPE, stderr=subprocess.PIPE, text=True, cwd=self.root)
-        r = self.ask(p, dtype)
+        r = self.ask(p, dtype, via)
         try:
             p.stdin.write('{"op": "quit"}\n')
             p.stdin.flush()
@@ -156,7 +159,8 @@ class World:
 def gen_history(rng, h):
     ops = [["eval", "same"]]
     n = int(rng.integers(6, 13))
-    kinds = ["edit_py_const", "edit_py_default", "edit_inc", "edit_template", "dtype", "revert"]
+    kinds = ["edit_py_const", "edit_py_default", "edit_inc", "edit_template", "dtype", "revert", "edit_source_list",
+             "edit_inc"]
     for _ in range(n):
         k = kinds[int(rng.integers(len(kinds)))]
         ops.append([k, None])
@@ -164,6 +168,9 @@ def gen_history(rng, h):
         if rng.random() < 0.3:
             ops.append(["eval", "fresh" if ops[-1][1] == "same" else "same"])
     # constructive tails
+    # the list of included C files changes and changes back; a C edit after a definition-file edit that kept the list
+    ops += [["edit_source_list", None], ["eval", "same"], ["edit_inc", None], ["eval", "same"], ["edit_source_list", None],
+            ["eval", "same"], ["edit_py_const", None], ["eval", "same"], ["edit_inc", None], ["eval", "same"], ["eval", "fresh"]]
     if h % 2 == 0:
         ops += [["edit_inc", None], ["eval", "same"], ["edit_py_default", None], ["eval", "same"], ["revert", "inc"],
                 ["eval", "same"], ["eval", "fresh"]]
@@ -197,8 +204,18 @@ def run_case(case, rec):
                 edits += 1
                 last_edit = op
             elif op == "edit_inc":
-                w.state["V"] += int(rng.integers(1, 4))
-                w.write("inc")
+                # the include file currently listed by the definition
+                if w.state["S"] == 1:
+                    w.state["V"] += int(rng.integers(1, 4))
+                    w.write("inc")
+                else:
+                    w.state["V2"] += int(rng.integers(1, 4))
+                    w.write("inc2")
+                edits += 1
+                last_edit = op
+            elif op == "edit_source_list":
+                w.state["S"] = 3 - w.state["S"]
+                w.write("py")
                 edits += 1
                 last_edit = op
             elif op == "edit_template":
@@ -220,14 +237,16 @@ def run_case(case, rec):
             if op != "eval":
                 rec.bucket("op:" + op)
                 continue
-            r = w.eval_same(dtype) if arg == "same" else w.eval_fresh(dtype)
-            rec.bucket("eval:%s_process" % arg)
+            via = "sasview" if (step + case["h"]) % 3 == 0 else "core"
+            r = w.eval_same(dtype, via) if arg == "same" else w.eval_fresh(dtype, via)
+            rec.bucket("eval:%s_process" % arg, "loader:" + via)
             if arg == "same" and last_edit == "revert":
                 rec.bucket("revert_then_same_process")
             if arg == "same" and last_edit == "edit_py_default":
                 rec.bucket("default_only_edit_then_same_process")
             s = w.state
-            expected = [float(s["K"]), float(s["V"]), float(s["T"]), FSIZE[dtype], float(s["D"])]
+            expected = [float(s["K"]), float(s["V"] if s["S"] == 1 else s["V2"]), float(s["T"]),
+                        FSIZE[dtype] if via == "core" else 8.0, float(s["D"])]
             ctx = {"step": step, "history": ops[:step + 1][-10:], "dtype": dtype, "process": arg,
                    "expected_versions": dict(zip(["py_const", "include", "template", "float_size", "py_default"], expected))}
             if "error" in r:
@@ -235,8 +254,16 @@ def run_case(case, rec):
                 continue
             got = r["values"]
             ok = (got == expected)
+            key = None
+            if not ok and via == "sasview" and arg == "same" and len(got) == 5 and \
+                    [g for j, g in enumerate(got) if j != 2] == [e for j, e in enumerate(expected) if j != 2] \
+                    and got[2] in {float(hh["T"]) for hh in w.history["tpl"][:-1]}:
+                # listed finding: only the template version is stale, only through the SasView loader, only in the
+                # process that had the model class already
+                key = "C17/sasview-loader-keeps-compiled-model-across-template-edits"
             rec.check("evaluates_current_sources", ok,
-                      None if ok else dict(ctx, decoded=dict(zip(["py_const", "include", "template", "float_size", "py_default"], got))))
+                      None if ok else dict(ctx, loader=via, decoded=dict(zip(["py_const", "include", "template", "float_size", "py_default"], got))),
+                      key=key)
             if r.get("package") and not r["package"].startswith(w.pkg):
                 rec.inconclusive("participant imported sasmodels from %s" % r["package"])
             for sha, size, path in r["make_dll_log"]:
